@@ -1511,12 +1511,24 @@ def _others_between(h, req):
         if a['t_start'] is not None and \
                 abs(a['t_start'] - req.t_arrive) <= EPS:
             return True
+    if _frames_same_tick(h, req):
+        return True
     for (sq, t, actor, kind, payload) in h.k.log:
         if sq <= lo or sq >= hi:
             continue
         if kind == 'spawn' and payload.get('thread') == 'W%d' % req.rid:
             continue
         return True
+    return False
+
+
+def _frames_same_tick(h, req):
+    """A WebSocket frame or close that reached the server in the instant
+    the request did: the state the request met is either side of it."""
+    for conn in h.world.wsconns:
+        for (_sq, t, _item) in conn.arrivals:
+            if abs(t - req.t_arrive) <= EPS:
+                return True
     return False
 
 
@@ -1633,6 +1645,8 @@ def check_admission(h, f=None):
                 if note == 'read' and req.status == 400 and \
                         req.t_done - req.t_arrive > TICK:
                     continue      # poll time-out
+                if req.status not in ok and _frames_same_tick(h, req):
+                    continue      # tie with a frame that changes the state
                 if req.status not in ok:
                     out.append(V('admission-status',
                                  '%s|refused-should-admit|%s|got=%s' % (
